@@ -107,10 +107,10 @@ def _result(G):
     return {'k': 'alt', 'alts': vals + ([tail] if tail is not None else []), 'ty': (tail or {}).get('ty') if isinstance(tail, dict) else None}
 
 
-def view(ctx, f, depth=3, stop=(), _stack=()):
+def view(ctx, f, depth=3, stop=(), _stack=(), force=()):
     """Inlined view of f (see module doc).  Memoised per (function, stop)."""
     _index(ctx)
-    key = (f['file'], f['qual'], tuple(sorted(stop)), depth)
+    key = (f['file'], f['qual'], tuple(sorted(stop)), depth, tuple(sorted(force)))
     memo = ctx._inline_memo
     if key in memo:
         return memo[key]
@@ -124,12 +124,12 @@ def view(ctx, f, depth=3, stop=(), _stack=()):
         def sub_view(g):
             k2 = g['qual']
             if k2 not in subs:
-                subs[k2] = view(ctx, g, depth - 1, stop, _stack + (f['qual'],))
+                subs[k2] = view(ctx, g, depth - 1, stop, _stack + (f['qual'],), force)
             return subs[k2]
 
         def can(c):
             g = resolve(ctx, f, c)
-            if g is None or not expandable(g, stop) or g['qual'] == f['qual'] or g['qual'] in _stack:
+            if g is None or not (expandable(g, stop) or g['name'].split('::')[-1] in force) or g['qual'] == f['qual'] or g['qual'] in _stack:
                 return None
             return g
 
